@@ -502,7 +502,7 @@ theorem chain_total_emb_eq {K R : Type} [NonAssocSemiring K] (ph : R → K) (w0 
 every plane is given twice, with its mask split into segments `l` (pairwise disjoint supports, bounding slices that cover
 them, possibly overlapping) and with the single union mask `g0` (`SplitPlane.WF`); then `propagate_dft` (tilt-free fields,
 no output mask) with any sampling and any output / propagation shape. Then at every sample of the output the complex
-`Wavefront.field` of the two descriptions agree, and so do the intensities (whenever `Wavefront.intensity` returns).
+`Wavefront.field` of the two descriptions agree, and so do the intensities (`Wavefront.intensity` always returns: C07 `intensity_defined`).
 All hypotheses are on the *input*: `WF` per plane, and `ExtOK` — computed from the bounding slices and shapes alone — says
 that no box and no intersection of boxes along the chain is a single pixel (the scope exclusion of the known finding
 KF-C03-one-pixel-segment). Composes `segments_sum`, `chain_distrib`, `propagate_linear`, C07 `intensity_eq_normSq_field`
@@ -515,7 +515,7 @@ theorem segmented_eq_monolithic_end_to_end (ph : R → K) (w0 : Fld K) (h0 : w0.
     let A := propagateDftNoTilt (chainMultiply ph ((s :: ss).map SplitPlane.seg) [w0]) αr αc shapeOut propOut
     let B := propagateDftNoTilt (chainMultiply ph ((s :: ss).map SplitPlane.mono) [w0]) αr αc shapeOut propOut
     (wfField 1 shapeOut.1 shapeOut.2 A).get i j = (wfField 1 shapeOut.1 shapeOut.2 B).get i j ∧
-    ∀ IA IB, wfIntensity 1 nsq shapeOut.1 shapeOut.2 A = some IA → wfIntensity 1 nsq shapeOut.1 shapeOut.2 B = some IB →
+    ∃ IA IB, wfIntensity 1 nsq shapeOut.1 shapeOut.2 A = some IA ∧ wfIntensity 1 nsq shapeOut.1 shapeOut.2 B = some IB ∧
       IA.get i j = IB.get i j := by
   intro A B
   obtain ⟨hemb, hposS, hposM⟩ := chain_total_emb_eq ph w0 h0 s ss hwf hEseg hEmono
@@ -524,7 +524,9 @@ theorem segmented_eq_monolithic_end_to_end (ph : R → K) (w0 : Fld K) (h0 : w0.
     fun r c => propagate_linear_emb _ _ hposS hposM hemb αr αc shapeOut propOut r c
   refine ⟨?_, ?_⟩
   · rw [C07.field_eq_sum _ _ A i j hi hj, C07.field_eq_sum _ _ B i j hi hj, htot]
-  · intro IA IB hIA hIB
+  · obtain ⟨IA, hIA⟩ := C07.intensity_defined nsq shapeOut.1 shapeOut.2 A
+    obtain ⟨IB, hIB⟩ := C07.intensity_defined nsq shapeOut.1 shapeOut.2 B
+    refine ⟨IA, IB, hIA, hIB, ?_⟩
     exact (views_depend_on_total nsq hn _ _ A B (propagate_pos _ αr αc shapeOut propOut ⟨by omega, by omega⟩ hpo) (propagate_pos _ αr αc shapeOut propOut ⟨by omega, by omega⟩ hpo)
       htot IA IB hIA hIB i j hi hj).2
 
@@ -565,7 +567,7 @@ theorem segmented_eq_monolithic_propagateDft (ph : R → K) (w0 : Fld K) (h0 : w
     let A := propagateDftCommon (chainMultiply ph ((s :: ss).map SplitPlane.seg) [w0]) αr αc S0 S1 P0 P1 os mask fix0 fix1 sub0 sub1
     let B := propagateDftCommon (chainMultiply ph ((s :: ss).map SplitPlane.mono) [w0]) αr αc S0 S1 P0 P1 os mask fix0 fix1 sub0 sub1
     (wfField 1 (S0 * os) (S1 * os) A).get i j = (wfField 1 (S0 * os) (S1 * os) B).get i j ∧
-    ∀ IA IB, wfIntensity 1 nsq (S0 * os) (S1 * os) A = some IA → wfIntensity 1 nsq (S0 * os) (S1 * os) B = some IB →
+    ∃ IA IB, wfIntensity 1 nsq (S0 * os) (S1 * os) A = some IA ∧ wfIntensity 1 nsq (S0 * os) (S1 * os) B = some IB ∧
       IA.get i j = IB.get i j := by
   intro A B
   obtain ⟨hemb, hposS, hposM⟩ := chain_total_emb_eq ph w0 h0 s ss hwf hEseg hEmono
@@ -573,7 +575,9 @@ theorem segmented_eq_monolithic_propagateDft (ph : R → K) (w0 : Fld K) (h0 : w
     fun r c => propagate_common_linear _ _ hposS hposM hemb αr αc S0 S1 P0 P1 os mask fix0 fix1 sub0 sub1 r c
   refine ⟨?_, ?_⟩
   · rw [C07.field_eq_sum _ _ A i j hi hj, C07.field_eq_sum _ _ B i j hi hj, htot]
-  · intro IA IB hIA hIB
+  · obtain ⟨IA, hIA⟩ := C07.intensity_defined nsq (S0 * os) (S1 * os) A
+    obtain ⟨IB, hIB⟩ := C07.intensity_defined nsq (S0 * os) (S1 * os) B
+    refine ⟨IA, IB, hIA, hIB, ?_⟩
     exact (views_depend_on_total nsq hn _ _ A B
       (propagate_common_pos _ αr αc S0 S1 P0 P1 os mask fix0 fix1 sub0 sub1 hoe hP)
       (propagate_common_pos _ αr αc S0 S1 P0 P1 os mask fix0 fix1 sub0 sub1 hoe hP)
